@@ -47,6 +47,7 @@ def parseIn (idx : Nat) (x : String) : Option In :=
   | ["B", raw] => (ofHex raw).map fun r => .line r none
   | ["E"] => some .empty
   | ["W"] => some .expire
+  | ["M"] => some .empty          -- reassembler-only protocol: `Maintain` without expiry
   | ["G", pid, cred, hs, tag] => do
     let p ← pid.toInt?
     let c ← ofHex cred
@@ -237,7 +238,7 @@ def specC15 (c : Cfg) (failAt : Option Nat) (ins : List In) (o : Obs) : Option S
     match simpleCase failAt ins with
     | none => none
     | some ses =>
-      if !noForce c ins || o.err ≠ "ctx" then none else
+      if !noForce c ins || o.err ≠ "ctx" || c.after ≠ 0 then none else
       let seqs := (rs.map (·.seq)).eraseDups
       let expect := seqs.filterMap fun s =>
         if !wfSeq rs s then none else
@@ -245,6 +246,8 @@ def specC15 (c : Cfg) (failAt : Option Nat) (ins : List In) (o : Obs) : Option S
         | some ev => if ev.ses = ses then some ev.ts else none
         | none => none
       if expect.all (fun t => tss.contains t) then none else some "record-skipped"
-  [c1, c2, c3, c4, c5].findSome? id
+  -- (6) nothing stamped before `After` is handed on
+  let c6 : Option String := if o.acts.any (fun a => a.ts < c.after) then some "event-before-After-emitted" else none
+  [c1, c2, c3, c4, c5, c6].findSome? id
 
 end AM.Spec.AP
